@@ -418,7 +418,8 @@ def emitters(repo):
     this generated file needs `import MazeVerif.Model.AllInst`, so it is written here (only when its text changes, like
     `emit` does) with a line-comment header, and nothing is handed back for `emit`."""
     body = build(Path(repo))
-    out = Path(__file__).resolve().parent.parent / "lean" / "MazeVerif" / "Generated" / "TokenizerTypes.lean"
+    import os
+    out = Path(os.environ.get("VERIF_LEAN_DIR", str(Path(__file__).resolve().parent.parent / "lean"))) / "MazeVerif" / "Generated" / "TokenizerTypes.lean"
     txt = body.replace("import MazeVerif.Model.AllInst\n", "import MazeVerif.Model.AllInst\n"
                        "-- GENERATED by harness/translate_tokenizer_types.py from /repo's source on every run. Do not edit.\n", 1)
     if not out.exists() or out.read_text() != txt:
